@@ -7,5 +7,8 @@ CONSTANTS
  DevVolOverwritten = FALSE
  DevUserRegen = FALSE
  DevRecentre = FALSE
+ DevKeySites = FALSE
+ DevProcForgets = FALSE
+ LargeN = 16
 INVARIANT ExportInv
 CHECK_DEADLOCK FALSE
